@@ -63,7 +63,10 @@ fn region_map(proof: &ExecutionProof, total: usize) -> Vec<(String, usize, usize
     }
     add("constraint-queries", ser_len(&p.constraint_queries), &mut off);
     add("ood-frame", ser_len(&p.ood_frame), &mut off);
-    add("fri-proof", ser_len(&p.fri_proof), &mut off);
+    // the FRI proof ends with one byte of prover-side metadata (log2 of the number of partitions)
+    let fri_len = ser_len(&p.fri_proof);
+    add("fri-proof", fri_len.saturating_sub(1), &mut off);
+    add("fri-num-partitions", fri_len.min(1), &mut off);
     add("pow-nonce", 8, &mut off);
     if off != total {
         // layout assumption broken: fall back to a single region so nothing is mislabelled
@@ -425,6 +428,23 @@ impl<'a> Ctx<'a> {
                 continue;
             }
             let rname = if name.starts_with("trace-queries") { "trace-queries".to_string() } else { name.clone() };
+            if end - start == 1 && start > 0 {
+                // one-byte regions (number of unique queries, FRI partition count): every value,
+                // so that what they can reach does not depend on the seed
+                for v in 0..=255u8 {
+                    if v == pb[start] {
+                        continue;
+                    }
+                    let mut m = pb.clone();
+                    m[start] = v;
+                    if canon(&m).as_deref() == Some(&pb[..]) {
+                        self.rep.count("equivalent", "proof-bytes-decode-identically");
+                        continue;
+                    }
+                    self.submit("proof-byte-exhaustive", &rname, h.info.clone(), h.si.clone(), h.so.clone(), &m, json!({"offset": start, "value": v}));
+                }
+                continue;
+            }
             for k in 0..per_region {
                 let mut m = pb.clone();
                 let i = rng.gen_range(start..end);
